@@ -391,8 +391,96 @@ class Normalizer:
         return new
 
     # ------------------------------------------------------------------ blocks / statements
+    @staticmethod
+    def _explicit_iteration(prev, st):
+        """(target, iterable, body, orelse) if `prev; st` is a spelled-out for loop:
+             it = iter(X)                                   it = iter(X)
+             while (v := next(it, S)) is not S: BODY        while True:
+                                                                try: v = next(it)
+                                                                except StopIteration: break
+                                                                BODY
+           (`it` used nowhere else in the loop), else None"""
+        if not (isinstance(prev, ast.Assign) and len(prev.targets) == 1 and isinstance(prev.targets[0], ast.Name)
+                and isinstance(prev.value, ast.Call) and isinstance(prev.value.func, ast.Name) and prev.value.func.id == "iter"
+                and len(prev.value.args) == 1 and isinstance(st, ast.While)):
+            return None
+        it = prev.targets[0].id
+        X = prev.value.args[0]
+
+        def uses_it(nodes):
+            return any(isinstance(n, ast.Name) and n.id == it for x in nodes for n in ast.walk(x))
+        t = st.test
+        # pattern A
+        if isinstance(t, ast.Compare) and len(t.ops) == 1 and isinstance(t.ops[0], ast.IsNot) and isinstance(t.left, ast.NamedExpr) \
+                and isinstance(t.left.value, ast.Call) and isinstance(t.left.value.func, ast.Name) and t.left.value.func.id == "next" \
+                and len(t.left.value.args) == 2 and isinstance(t.left.value.args[0], ast.Name) and t.left.value.args[0].id == it \
+                and ast.dump(t.left.value.args[1]) == ast.dump(t.comparators[0]) and not uses_it(st.body + st.orelse):
+            return t.left.target, X, st.body, st.orelse
+        # pattern B
+        if isinstance(t, ast.Constant) and t.value is True and st.body and isinstance(st.body[0], ast.Try) and not st.orelse:
+            tr = st.body[0]
+            if len(tr.body) == 1 and isinstance(tr.body[0], ast.Assign) and len(tr.body[0].targets) == 1 \
+                    and isinstance(tr.body[0].value, ast.Call) and isinstance(tr.body[0].value.func, ast.Name) and tr.body[0].value.func.id == "next" \
+                    and len(tr.body[0].value.args) == 1 and isinstance(tr.body[0].value.args[0], ast.Name) and tr.body[0].value.args[0].id == it \
+                    and len(tr.handlers) == 1 and (A.dotted(tr.handlers[0].type) or "") == "StopIteration" and len(tr.handlers[0].body) == 1 \
+                    and isinstance(tr.handlers[0].body[0], ast.Break) and not tr.finalbody and not uses_it(st.body[1:] + tr.orelse):
+                return tr.body[0].targets[0], X, list(tr.orelse) + st.body[1:], []
+        return None
+
     def _block(self, stmts, cls, depth) -> List[ast.stmt]:
         out: List[ast.stmt] = []
+        stmts = list(stmts)
+        # spelled-out iteration (explicit iterator + while) is the for loop it abbreviates
+        i = 0
+        while i + 1 < len(stmts):
+            # the iterator may be created a few statements before the loop (nothing in between mentions it)
+            j = i + 1
+            while j < len(stmts) and j - i <= 3 and not isinstance(stmts[j], ast.While) and isinstance(stmts[i], ast.Assign) \
+                    and isinstance(stmts[i].targets[0], ast.Name) and not any(
+                        isinstance(n, ast.Name) and n.id == stmts[i].targets[0].id for n in ast.walk(stmts[j])):
+                j += 1
+            ex = self._explicit_iteration(stmts[i], stmts[j]) if j < len(stmts) else None
+            if ex is not None:
+                tgt, X, body, orelse = ex
+                tgt = copy.deepcopy(tgt)
+                for n in ast.walk(tgt):
+                    if isinstance(n, ast.Name):
+                        n.ctx = ast.Store()
+                loop = ast.copy_location(ast.For(target=tgt, iter=X, body=body, orelse=orelse, type_comment=None), stmts[j])
+                ast.fix_missing_locations(loop)
+                stmts[j] = loop
+                del stmts[i]
+                continue
+            i += 1
+        # a hand-kept position counter (k = -1 ... for x in xs: k += 1; ...) is enumerate
+        i = 0
+        while i + 1 < len(stmts):
+            a, lp = stmts[i], stmts[i + 1]
+            if isinstance(a, ast.Assign) and len(a.targets) == 1 and isinstance(a.targets[0], ast.Name) and isinstance(lp, ast.For) \
+                    and isinstance(lp.target, ast.Name) and lp.body and not lp.orelse:
+                k = a.targets[0].id
+                v = a.value
+                neg1 = isinstance(v, ast.UnaryOp) and isinstance(v.op, ast.USub) and isinstance(v.operand, ast.Constant) and v.operand.value == 1 \
+                    or (isinstance(v, ast.Constant) and v.value == -1)
+                zero = isinstance(v, ast.Constant) and v.value == 0 and not isinstance(v.value, bool)
+
+                def is_inc(x):
+                    return isinstance(x, ast.AugAssign) and isinstance(x.op, ast.Add) and isinstance(x.target, ast.Name) and x.target.id == k \
+                        and isinstance(x.value, ast.Constant) and x.value.value == 1
+                others = [n for b in lp.body for n in ast.walk(b) if isinstance(n, ast.Name) and n.id == k and isinstance(n.ctx, (ast.Store, ast.Del))]
+                has_cont = any(isinstance(n, ast.Continue) for n in _walk_own(lp.body, loops=False))
+                body = None
+                if neg1 and is_inc(lp.body[0]) and len(others) == 1:
+                    body = lp.body[1:]
+                elif zero and is_inc(lp.body[-1]) and len(others) == 1 and not has_cont:
+                    body = lp.body[:-1]
+                if body is not None and body:
+                    tgt = ast.Tuple(elts=[ast.Name(id=k, ctx=ast.Store()), lp.target], ctx=ast.Store())
+                    it = ast.Call(func=ast.Name(id="enumerate", ctx=ast.Load()), args=[lp.iter], keywords=[])
+                    new_lp = ast.copy_location(ast.For(target=tgt, iter=it, body=body, orelse=[], type_comment=None), lp)
+                    ast.fix_missing_locations(new_lp)
+                    stmts[i + 1] = new_lp        # the initial assignment stays (value of k if the loop does not run)
+            i += 1
         for st in stmts:
             out.extend(self._stmt(st, cls, depth))
         return out
